@@ -18,6 +18,9 @@ Core Lean only.
   the default, and afterwards neither side sees the other's writes; `thread_isolation_state` is the
   state form of isolation;
 * `unknown_code_fails`, `unknown_code_fails_in_block`, `known_code_dispatches`;
+* `deferred_entry_restores`, `deferred_entry_observation`, `thread_isolation_deferred` — manager objects built
+  before they are entered (pre-built managers, `__enter__`/`__exit__`, ExitStack, decorator form, built in one
+  thread and entered in another): the value restored is the one in force at ENTER time;
 * `nonlifo_example` — what is excluded by the grammar: suspended generators closed out of LIFO order leak.
 -/
 set_option linter.unusedSimpArgs false
@@ -501,6 +504,164 @@ stays in force although every block has been left); the model reproduces it and 
 against the real interpreter, but it is not counted as a finding. -/
 theorem nonlifo_example :
     run Ctx.init [.enter .p, .enter .o, .exitAt 1, .exitAt 0] = some ⟨.p, []⟩ := by
+  decide
+
+/-! ### manager objects built before they are entered (deferred entry) -/
+
+/-- the store of built managers after a history -/
+def storeAfter (st : Store) : List EvM → Store
+  | [] => st
+  | .build m d :: es => storeAfter ((m, d) :: st) es
+  | _ :: es => storeAfter st es
+
+theorem resolveH_append (st : Store) (a b : List EvM) :
+    resolveH st (a ++ b) =
+      (resolveH st a).bind (fun ea => (resolveH (storeAfter st a) b).map (fun eb => ea ++ eb)) := by
+  induction a generalizing st with
+  | nil => simp [resolveH, storeAfter]
+  | cons e es ih =>
+    cases e with
+    | base e =>
+      simp only [List.cons_append, resolveH, storeAfter, ih]
+      cases resolveH st es <;> simp [Function.comp_def]
+    | build m d =>
+      simp only [List.cons_append, resolveH, storeAfter, ih]
+      cases resolveH ((m, d) :: st) es <;> simp [Function.comp_def]
+    | enterM m =>
+      simp only [List.cons_append, resolveH, storeAfter]
+      cases st.lookup m with
+      | none => simp
+      | some d =>
+        simp only [ih]
+        cases resolveH st es <;> simp [Function.comp_def]
+
+/-- well-nested histories in which a block may also be opened by entering a manager built earlier
+(at any earlier point, under any ambient setting, possibly by another thread) -/
+inductive BalancedM : List EvM → Prop where
+  | nil : BalancedM []
+  | atom (e : Ev) (h : e.isAtom = true) : BalancedM [.base e]
+  | build (m : Nat) (d : Code) : BalancedM [.build m d]
+  | wrap (d : Code) (x : Ev) (hx : x.isExit = true) {es : List EvM} :
+      BalancedM es → BalancedM (.base (.enter d) :: (es ++ [.base x]))
+  | wrapM (m : Nat) (x : Ev) (hx : x.isExit = true) {es : List EvM} :
+      BalancedM es → BalancedM (.enterM m :: (es ++ [.base x]))
+  | append {a b : List EvM} : BalancedM a → BalancedM b → BalancedM (a ++ b)
+
+theorem balancedM_resolve {hm : List EvM} (h : BalancedM hm) :
+    ∀ (st : Store) (es : List Ev), resolveH st hm = some es → Balanced es := by
+  induction h with
+  | nil => intro st es hr; simp [resolveH] at hr; subst hr; exact Balanced.nil
+  | atom e he => intro st es hr; simp [resolveH] at hr; subst hr; exact Balanced.atom e he
+  | build m d => intro st es hr; simp [resolveH] at hr; subst hr; exact Balanced.atom .get rfl
+  | @wrap d x hx body hb ih =>
+    intro st es hr
+    simp only [resolveH, resolveH_append] at hr
+    cases h0 : resolveH st body with
+    | none => simp [h0] at hr
+    | some e0 =>
+      simp [h0, resolveH] at hr
+      subst hr
+      exact Balanced.wrap d x hx (ih st e0 h0)
+  | @wrapM m x hx body hb ih =>
+    intro st es hr
+    simp only [resolveH] at hr
+    cases hl : st.lookup m with
+    | none => simp [hl] at hr
+    | some d =>
+      simp only [hl, resolveH_append] at hr
+      cases h0 : resolveH st body with
+      | none => simp [h0] at hr
+      | some e0 =>
+        simp [h0, resolveH] at hr
+        subst hr
+        exact Balanced.wrap d x hx (ih st e0 h0)
+  | @append a b ha hb iha ihb =>
+    intro st es hr
+    rw [resolveH_append] at hr
+    cases h0 : resolveH st a with
+    | none => simp [h0] at hr
+    | some ea =>
+      cases h1 : resolveH (storeAfter st a) b with
+      | none => simp [h0, h1] at hr
+      | some eb =>
+        simp [h0, h1] at hr
+        subst hr
+        exact Balanced.append (iha st ea h0) (ihb _ eb h1)
+
+/-- ★ restoration with deferred entry: whenever managers were built (any store `st` at the start, any builds in
+between), after a well-nested history the setting in force before it is in force again -/
+theorem deferred_entry_restores {hm : List EvM} (h : BalancedM hm) (st : Store) (es : List Ev)
+    (hr : resolveH st hm = some es) (c : Ctx) : run c es = some c :=
+  balanced_restores (balancedM_resolve h st es hr) c
+
+/-- ★ the value restored is the one in force when the manager is ENTERED (not when it was built): for a manager
+`m` built with code `d` at any earlier time, the block `enterM m · H · x` run from context `c` shows `d` inside
+and `c.cur` — the value at entry — right after leaving. -/
+theorem deferred_entry_observation (m : Nat) (d : Code) (x : Ev) (hx : x.isExit = true) {body : List EvM}
+    (h : BalancedM body) (st : Store) (hl : st.lookup m = some d) (es : List Ev)
+    (hr : resolveH st (.enterM m :: (body ++ [.base x])) = some es) (c : Ctx) :
+    ∃ tr, trace c es = some tr ∧ tr.head?.map (·.code) = some d ∧ tr.getLast?.map (·.code) = some c.cur := by
+  simp only [resolveH, hl, resolveH_append] at hr
+  cases h0 : resolveH st body with
+  | none => simp [h0] at hr
+  | some e0 =>
+    simp [h0, resolveH] at hr
+    subst hr
+    exact restored_observation d x hx (balancedM_resolve h st e0 h0) c
+
+/-- building a manager neither reads nor writes the context -/
+theorem build_is_observation_only (st : Store) (m : Nat) (d : Code) (c : Ctx) :
+    (resolveH st [.build m d]).bind (run c) = some c := by
+  simp [resolveH, run, stepCtx]
+
+theorem resolve_map (t : Nat) (st : Store) (hm : List EvM) :
+    resolve st (hm.map (fun e => (t, e))) = (resolveH st hm).map (fun es => es.map (fun e => (t, e))) := by
+  induction hm generalizing st with
+  | nil => simp [resolve, resolveH]
+  | cons e es ih =>
+    cases e with
+    | base e => simp only [List.map_cons, resolve, resolveH, ih]; cases resolveH st es <;> simp
+    | build m d =>
+      simp only [List.map_cons, resolve, resolveH, ih]; cases resolveH ((m, d) :: st) es <;> simp
+    | enterM m =>
+      simp only [List.map_cons, resolve, resolveH]
+      cases st.lookup m with
+      | none => simp
+      | some d => simp only [ih]; cases resolveH st es <;> simp
+
+/-- ★ isolation with deferred entry, every schedule: managers may be built by any thread and entered by any other;
+each thread still observes exactly its own (resolved) events run alone -/
+theorem thread_isolation_deferred (es : List (Nat × EvM)) (w : World) (tr : List (Nat × Obs))
+    (h : traceWM w es = some tr) :
+    ∃ es', resolve [] es = some es' ∧
+      ∀ t, NoSpawnOnto t es' → trace (w t) (proj t es') = some (projObs t tr) := by
+  unfold traceWM at h
+  cases hr : resolve [] es with
+  | none => simp [hr] at h
+  | some es' =>
+    simp only [hr, Option.bind_some] at h
+    exact ⟨es', rfl, fun t hns => thread_isolation es' w tr h t hns⟩
+
+/-- the scenario of pre-built managers: both built under `f`, the inner one entered under `i`; leaving the inner
+block gives `i` back (not the `f` in force when it was built) -/
+example : ((resolveH [] [.build 0 .i, .build 1 .p, .enterM 0, .enterM 1, .base .get, .base .exit, .base .get,
+      .base .raise, .base .get]).bind (trace Ctx.init)).map (fun tr => tr.map (fun o => o.code))
+    = some [.f, .f, .i, .p, .p, .i, .i, .f, .f] := by
+  decide
+
+example : BalancedM [.build 0 .i, .build 1 .p, .enterM 0, .enterM 1, .base .get, .base .exit, .base .get,
+    .base .raise, .base .get] := by
+  have h1 : BalancedM [EvM.enterM 1, .base .get, .base .exit] :=
+    BalancedM.wrapM 1 .exit rfl (BalancedM.atom .get rfl)
+  have h0 := BalancedM.wrapM 0 .raise rfl (BalancedM.append h1 (BalancedM.atom .get rfl))
+  have := BalancedM.append (BalancedM.build 0 .i) (BalancedM.append (BalancedM.build 1 .p)
+    (BalancedM.append h0 (BalancedM.atom .get rfl)))
+  simpa using this
+
+/-- a manager built by thread 0 inside its `o` block and entered by thread 1 -/
+example : (traceWM World.init [(0, .base (.enter .o)), (0, .build 7 .p), (0, .base (.spawnThread 1)), (1, .enterM 7),
+      (0, .base .exit), (1, .base .exit), (1, .base .get), (0, .base .get)]).map (·.map (fun p => (p.1, p.2.code)))
+    = some [(0, .o), (0, .o), (0, .o), (1, .p), (0, .f), (1, .f), (1, .f), (0, .f)] := by
   decide
 
 end Pun.DepCtx
